@@ -441,6 +441,16 @@ func (c *Ctx) scopeFor(prop string, ef *effects) scopeFn {
 			}
 		}
 		reach := c.reachFrom(roots)
+		if len(roots) == 0 && ef.mi != nil && ef.mi.run != nil {
+			// the validation is written out in Run itself: Run and what it reaches in the model package
+			all := c.reachFrom([]*ssa.Function{ef.mi.run})
+			reach = map[*ssa.Function]bool{}
+			for f := range all {
+				if fnPkgPath(f) == modPath {
+					reach[f] = true
+				}
+			}
+		}
 		return func(f *ssa.Function) bool { return reach[f] }
 	case "C14", "C03":
 		var roots []*ssa.Function
